@@ -1398,6 +1398,28 @@ let range_events item0 chars a b =
     bind (mapM item0 (range a b)) (fun xs -> Ok
       (ESA :: (app (concat xs) (EEA :: []))))
 
+(** val pick_nth : (content -> 'a1 res) -> content list -> nat -> 'a1 res **)
+
+let rec pick_nth f l k =
+  match l with
+  | [] -> Err EOob
+  | x :: xs -> (match k with
+                | O -> f x
+                | S k' -> pick_nth f xs k')
+
+(** val fields_ev :
+    (content -> ev list res) -> content list -> bytes list -> ev list res **)
+
+let rec fields_ev f l kl =
+  match l with
+  | [] -> Ok []
+  | x :: xs ->
+    (match kl with
+     | [] -> Err EValue
+     | k :: kl' ->
+       bind (f x) (fun e ->
+         bind (fields_ev f xs kl') (fun r -> Ok ((EKey k) :: (app e r)))))
+
 (** val tuple_keys : nat -> bytes list **)
 
 let tuple_keys n0 =
@@ -1444,29 +1466,13 @@ let rec item o p c i =
       bind (get ix i) (fun j ->
         if Z.ltb t Z0
         then Err EOob
-        else let rec pick l k =
-               match l with
-               | [] -> Err EOob
-               | x :: xs ->
-                 (match k with
-                  | O -> item o None x j
-                  | S k' -> pick xs k')
-             in pick cs (Z.to_nat t)))
+        else pick_nth (fun x -> item o None x j) cs (Z.to_nat t)))
   | Record (cs, ks, _) ->
     let keys = match ks with
                | Some k -> k
                | None -> tuple_keys (length cs) in
-    bind
-      (let rec fields l kl =
-         match l with
-         | [] -> Ok []
-         | x :: xs ->
-           (match kl with
-            | [] -> Err EValue
-            | k :: kl' ->
-              bind (item o None x i) (fun e ->
-                bind (fields xs kl') (fun r -> Ok ((EKey k) :: (app e r)))))
-       in fields cs keys) (fun body -> Ok (ESO :: (app body (EEO :: []))))
+    bind (fields_ev (fun x -> item o None x i) cs keys) (fun body -> Ok
+      (ESO :: (app body (EEO :: []))))
   | Par (arr, _, c') -> item o (eff p arr) c' i
 
 (** val tojson_events : jopts -> content -> ev list res **)
@@ -2531,10 +2537,15 @@ let rec do_parse_loop fuel o bs acc =
               | _ :: _ -> JErr JInvalid)
            | PFuel -> JErr JFuel)))
 
+(** val do_parse_text : jopts -> z list -> jres **)
+
+let do_parse_text o bs =
+  do_parse_loop (S (length bs)) o bs []
+
 (** val do_parse : jopts -> z list -> jres **)
 
 let do_parse o text =
-  let bs = cstr text in do_parse_loop (S (length bs)) o bs []
+  do_parse_text o (cstr text)
 
 type fromjson_result =
 | One of ev list
